@@ -3,6 +3,8 @@ import Rare.Proofs.C17Wf
 import Rare.Proofs.C17Range
 import Rare.Proofs.C17Wrap
 import Rare.Proofs.C17Laws
+import Rare.Proofs.C17Pool
+import Rare.Gen.C17
 import Rare.Spec.C17Wf
 /-!
 # C17 — array helpers obey list semantics
@@ -974,6 +976,174 @@ theorem builders_reject (a0 a1 a2 a3 : Stage) :
     kfArrayFor [a0, a1] = errArgCount := by
   refine ⟨rfl, rfl, rfl, rfl, ?_, rfl, rfl, rfl, rfl, ?_, rfl, ?_, ?_, rfl, rfl, rfl⟩ <;> rfl
 
+/-! ## The pooled sub-contexts
+
+`@map`, `@filter`, `@reduce`, `@for` evaluate their sub-expressions against a `subContext` object taken from the
+global `subContextPool` (`pkg/slicepool/objpool.go`).  The theorems above model the helpers WITHOUT a pool
+(`Comp.withSub`).  That is sound because (1) the pool never hands out an object that somebody still holds, in any
+order of `Get` and `Return` by any number of goroutines or nesting levels (`pool_exclusive`), (2) every helper
+overwrites ALL fields of the object it got before it reads any (`no_stale_field`, `pooled_eval_fresh`), and
+(3) the source says so (`pool_code_matches_source`, `sub_context_code_matches_source`: regenerated from /repo). -/
+
+/-- **No object is ever handed out twice.**  From `NewObjectPool(n)`, after ANY sequence of `Get`s and of
+    `Return`s of checked-out objects IN ANY ORDER (not only last-out-first-in): the object the next `Get` hands
+    out is held by nobody, the held objects are pairwise distinct, and none of them lies in the pool. -/
+theorem pool_exclusive (n : Nat) (w : World) (h : Reach n w) :
+    w.pool.get.1 ∉ w.held ∧ w.held.Nodup ∧ (∀ o ∈ w.held, o ∉ w.pool.free) ∧ w.pool.free.Nodup := by
+  obtain ⟨hn, hb⟩ := inv_reach h
+  have hd := List.nodup_append.mp hn
+  refine ⟨?_, hd.2.1, fun o ho hf => hd.2.2 o hf o ho rfl, hd.1⟩
+  cases hl : w.pool.free.getLast? with
+  | none =>
+    rw [get_of_empty hl]
+    intro hm
+    exact Nat.lt_irrefl _ (hb _ (List.mem_append_right _ hm))
+  | some o =>
+    rw [get_of_last hl]
+    intro hm
+    exact hd.2.2 o (List.mem_of_getLast? hl) o hm rfl
+
+/-- A returned object is the next one handed out, and the pool is as before (`Return` then `Get` is the identity):
+    the pool is a stack of the RETURNED objects themselves, not of slots. -/
+theorem pool_reuses_returned (p : C17Pool.Pool) (o : Nat) : (p.ret o).get = (o, p) := ret_get p o
+
+/-- The scenario of a two-object pool with an out-of-order return (`g g r0 g`): the third `Get` hands out the
+    RETURNED first object, not the second one, which is still held. -/
+example : C17Pool.runScript [.get, .get, .ret 0, .get] (C17Pool.Pool.new 2) [] = [1, 0, 1] := by decide
+
+/-- `objpool.go` is the code the pool model mirrors (regenerated from /repo on every run). -/
+theorem pool_code_matches_source :
+    Gen.C17.objPoolNew = ["ret := &ObjectPool[T]{ pool: make([]*T, size), newer: newer, }",
+      "for i := 0; i < size; i++ { ret.pool[i] = newer() }", "return ret"] ∧
+    Gen.C17.objPoolGet = ["s.m.Lock()", "defer s.m.Unlock()", "if len(s.pool) == 0 { return s.newer() }",
+      "end := len(s.pool) - 1", "ret = s.pool[end]", "s.pool = s.pool[:end]", "return"] ∧
+    Gen.C17.objPoolReturn = ["s.m.Lock()", "defer s.m.Unlock()", "s.pool = append(s.pool, obj)"] := by decide
+
+/-- `subContext`'s methods: `Eval` stores BOTH values and only then runs the stage; `GetMatch` reads `parent`
+    (negative index) and `vals`; `GetKey` reads `parent` – the three fields `SubObj` has. -/
+theorem sub_context_code_matches_source :
+    Gen.C17.evalCode = ["s.vals[0] = v0", "s.vals[1] = v1", "return stage(s)"] ∧
+    Gen.C17.getMatchCode = ["if idx < 0 { return s.parent.GetMatch(idx) }",
+      "if idx < len(s.vals) { return s.vals[idx] }", "return \"\""] ∧
+    Gen.C17.getKeyCode = ["return s.parent.GetKey(k)"] := by decide
+
+/-- **No stale field**: every helper that takes a pooled sub-context re-initialises it completely before its
+    first `Eval` and returns exactly that object when the evaluation ends; nothing outside the per-evaluation
+    closure touches the pool (an object taken once per compiled stage would be shared by all goroutines), and
+    no other function of the package uses the pool.  (Access table regenerated from /repo.) -/
+theorem no_stale_field :
+    (∀ h ∈ Gen.C17.poolEvents, disciplined h.2 = true) ∧
+    (Gen.C17.poolEvents.filter (fun h => !h.2.isEmpty)).map (·.1) = ["@map", "@reduce", "@for", "@filter"] ∧
+    Gen.C17.otherPoolUsers = [] := by decide
+
+/-- What the discipline buys, on the object's fields: after the overwrite, `Eval` answers what the pool-free
+    model (`Comp.withSub`) answers – whatever the previous user left in the object – and the object still points
+    at THIS evaluation's context afterwards (so every later `Eval` of the same helper does too). -/
+theorem pooled_eval_fresh (stale : SubObj) (ctx : Ctx) (st : Stage) (a b : Bytes) :
+    ((stale.reset ctx).eval st a b).1 = (st.withSub a b).run ctx ∧
+    ((stale.reset ctx).eval st a b).2.parent = ctx ∧
+    ∀ (st' : Stage) (a' b' : Bytes),
+      (((stale.reset ctx).eval st a b).2.eval st' a' b').1 = (st'.withSub a' b').run ctx := by
+  refine ⟨?_, rfl, fun st' a' b' => ?_⟩
+  · rw [withSub_run]; rfl
+  · rw [withSub_run]; rfl
+
+/-- Without the overwrite a key look-up is answered by the PREVIOUS user's match (this was F7 for `@for`). -/
+theorem pooled_eval_stale_counterexample :
+    let old : Ctx := { getMatch := fun _ => [], getKey := fun _ => [111] }
+    let cur : Ctx := { getMatch := fun _ => [], getKey := fun _ => [99] }
+    ((⟨old, [], []⟩ : SubObj).eval (Comp.key [107]) [] []).1 = .ok [111] ∧
+    (((⟨old, [], []⟩ : SubObj).reset cur).eval (Comp.key [107]) [] []).1 = .ok [99] := ⟨rfl, rfl⟩
+
+/-! ## Constants, defaults, arities, documentation (regenerated from /repo) -/
+
+/-- The constants the model uses are the ones in the source: the separator, BOTH iteration limits (`@range`
+    has its own `MAX_ITERATIONS`), the defaults of the optional arguments. -/
+theorem constants_match_source (a0 : Stage) :
+    Gen.C17.arraySeparator = ArraySeparator.toNat ∧
+    Gen.C17.maxIterationsRange = Gen.maxIterations ∧ Gen.C17.maxIterationsFor = Gen.maxIterations ∧
+    kfArraySplit [a0] = ok (splitStage Gen.C17.splitDefault a0) ∧
+    kfArrayJoin [a0] = ok (joinStage Gen.C17.joinDefault a0) ∧
+    kfArrayRange [a0] = ok (rangeStage (Stage.lit Gen.C17.rangeDefaultStart) a0 (Stage.lit Gen.C17.rangeDefaultIncr)) ∧
+    Gen.C17.reduceDefault = [] := by
+  have es : Gen.C17.splitDefault = ascii " " := by decide +kernel
+  have ej : Gen.C17.joinDefault = ascii " " := by decide +kernel
+  have e0 : Gen.C17.rangeDefaultStart = ascii "0" := by decide +kernel
+  have e1 : Gen.C17.rangeDefaultIncr = ascii "1" := by decide +kernel
+  refine ⟨by decide, rfl, rfl, ?_, ?_, ?_, rfl⟩
+  · rw [es]; exact (builders_spec a0 a0 a0 [32] (by simp)).2.2.1
+  · rw [ej]; simp [kfArrayJoin, argCountBetween, evalStageIndexOrDefault]
+  · rw [e0, e1]; rfl
+
+/-- Every builder accepts exactly the argument counts the source checks for (tried with 0…5 constant
+    arguments): `<ARGN>` outside `lo…hi`, no arity error inside. -/
+theorem arity_matches_source :
+    ∀ e ∈ Gen.C17.arity, ∀ n ∈ List.range 6,
+      (table.find? (·.1 == e.1)).map (fun b => isArgCountErr (b.2 (List.replicate n (Stage.lit [49])))) =
+        some (decide (n < e.2.1 ∨ e.2.2 < n)) := by decide +kernel
+
+/-- Every helper of the documentation's array section is modelled, and the model has no helper the
+    documentation does not mention. -/
+theorem documented_helpers_covered :
+    (∀ n ∈ Gen.C17.documentedHelpers, (table.find? (·.1 == n)).isSome = true) ∧
+    (∀ e ∈ table, e.1 ∈ Gen.C17.documentedHelpers) ∧
+    (∀ n ∈ Gen.C17.documentedHelpers, n ∈ Gen.stdFunctionNames) := by decide
+
+/-- **`MAX_ITERATIONS`, the exact boundary.**  A range with exactly `MAX_ITERATIONS` terms is produced in full;
+    one more term and the answer is `<INF>` (the same arguments, stop moved by one). -/
+theorem range_limit_boundary (ctx : Ctx) :
+    (rangeStage (Stage.lit (ascii "0")) (Stage.lit (ascii "1000000")) (Stage.lit (ascii "1"))).run ctx =
+      .ok (pack ((range 0 1000000 1).map itoa)) ∧
+    (rangeStage (Stage.lit (ascii "0")) (Stage.lit (ascii "1000001")) (Stage.lit (ascii "1"))).run ctx =
+      .ok InfMarker ∧
+    (rangeStage (Stage.lit (ascii "0")) (Stage.lit (ascii "-3000000")) (Stage.lit (ascii "-3"))).run ctx =
+      .ok (pack ((range 0 (-3000000) (-3)).map itoa)) ∧
+    (rangeStage (Stage.lit (ascii "0")) (Stage.lit (ascii "-3000001")) (Stage.lit (ascii "-3"))).run ctx =
+      .ok InfMarker := by
+  have hM : Gen.maxIterations = 1000000 := rfl
+  refine ⟨?_, ?_, ?_, ?_⟩
+  · rw [range_spec_closed ctx _ _ _ (ascii "0") (ascii "1000000") (ascii "1") 0 1000000 1 rfl rfl rfl
+      (by decide +kernel) (by decide +kernel) (by decide +kernel)]
+    have : rangeCount 0 1000000 1 = 1000000 := by decide +kernel
+    simp [this, hM]
+  · rw [range_spec_closed ctx _ _ _ (ascii "0") (ascii "1000001") (ascii "1") 0 1000001 1 rfl rfl rfl
+      (by decide +kernel) (by decide +kernel) (by decide +kernel)]
+    have : rangeCount 0 1000001 1 = 1000001 := by decide +kernel
+    simp [this, hM]
+  · rw [range_spec_closed ctx _ _ _ (ascii "0") (ascii "-3000000") (ascii "-3") 0 (-3000000) (-3) rfl rfl rfl
+      (by decide +kernel) (by decide +kernel) (by decide +kernel)]
+    have : rangeCount 0 (-3000000) (-3) = 1000000 := by decide +kernel
+    simp [this, hM]
+  · rw [range_spec_closed ctx _ _ _ (ascii "0") (ascii "-3000001") (ascii "-3") 0 (-3000001) (-3) rfl rfl rfl
+      (by decide +kernel) (by decide +kernel) (by decide +kernel)]
+    have : rangeCount 0 (-3000001) (-3) = 1000001 := by decide +kernel
+    simp [this, hM]
+
+/-- Bounds that only LOOK like numbers (`1.5`, `1e3`, `0x10`, the empty string) are not integers: whichever
+    of the three arguments it is, the answer is `<BAD-TYPE>`. -/
+theorem range_bad_type_any (ctx : Ctx) (sStart sStop sIncr : Stage) (a b c : Bytes)
+    (ha : sStart.run ctx = .ok a) (hb : sStop.run ctx = .ok b) (hc : sIncr.run ctx = .ok c)
+    (h : atoi a = none ∨ atoi b = none ∨ atoi c = none) :
+    (rangeStage sStart sStop sIncr).run ctx = .ok ErrorNum := by
+  unfold rangeStage
+  rw [run_bind_ok ctx _ _ _ ha]
+  cases pa : atoi a with
+  | none => rfl
+  | some start =>
+    simp only []
+    rw [run_bind_ok ctx _ _ _ hb]
+    cases pb : atoi b with
+    | none => rfl
+    | some stop =>
+      simp only []
+      rw [run_bind_ok ctx _ _ _ hc]
+      cases pc : atoi c with
+      | none => rfl
+      | some incr => simp [pa, pb, pc] at h
+
+example : atoi (ascii "1.5") = none ∧ atoi (ascii "1e3") = none ∧ atoi (ascii "0x10") = none ∧ atoi (ascii " 1") = none := by
+  decide +kernel
+
 /-! ## Non-vacuity -/
 
 /-- A concrete context and sub-expression: `{0}` and the key `k` (resolved by the enclosing match). -/
@@ -1010,6 +1180,30 @@ example : progWhile 3 10 3 100 0 = some (range 3 10 3) ∧ progWhile 10 3 (-3) 1
     progWhile 9223372036854775800 9223372036854775807 5 100 0 =
       some [9223372036854775800, 9223372036854775805] ∧
     progWhile 0 5 1 3 0 = none := by decide
+
+/-! ### Composition laws -/
+
+example : slice (slice [[97], [98], [99], [100]] 1 (-1)) 1 1 = slice [[97], [98], [99], [100]] 2 1 ∧
+    slice [[97], [98], [99], [100]] 2 1 = [[99]] ∧
+    slice (slice [[97], [98], [99], [100]] 1 2) 1 5 = [[99]] := by decide
+/-- The empty list and `[""]` are one value; `@len` says 0 for it and counts every other list. -/
+example : len (pack [[]]) = 0 ∧ len (pack [[], []]) = 2 ∧ pack ([] : List Bytes) = pack [[]] ∧
+    elems (pack ([] : List Bytes)) = [[]] := by decide
+example : select ([[97], [98]].map (fun x => x ++ [33])) (-1) = [98, 33] ∧
+    select ([[97], [98]].map (fun x => x ++ [33])) 2 = [] ∧ inRange 2 (-2) = true ∧ inRange 2 (-3) = false := by decide
+/-- `{@map {@filter {0} ""} "{0}{k}"}`: nothing is kept, the mapper still runs once, on the empty string. -/
+example : (mapStage (filterStage (Comp.match_ 0) (Stage.lit [])) exSub).run exCtx = .ok [9] := by
+  rw [map_filter_spec exCtx (Comp.match_ 0) exSub (Stage.lit []) [1, 0, 2, 0, 0, 3] (fun a _ => a ++ [9]) (fun _ _ => [])
+    rfl (fun _ _ => rfl) (fun _ _ => rfl)]
+  exact congrArg Except.ok (by decide)
+/-- `{@map {@split "a,b;c" ";"} {@split {0} ","}}` flattens: `a`, `b`, `c`. -/
+example : (splitOn [59] [97, 44, 98, 59, 99]).flatMap (splitOn [44]) = [[97], [98], [99]] := by decide
+/-- A reachable world with an out-of-order return (the hypotheses of `pool_exclusive` are satisfiable):
+    two `Get`s, then the FIRST object comes back while the second is still out. -/
+example : Reach 2 ⟨⟨[1], 2⟩, [0]⟩ := by
+  have h1 : Reach 2 ⟨⟨[0], 2⟩, [1]⟩ := Reach.step Reach.init (Step.get (World.new 2))
+  have h2 : Reach 2 ⟨⟨[], 2⟩, [0, 1]⟩ := Reach.step h1 (Step.get ⟨⟨[0], 2⟩, [1]⟩)
+  exact Reach.step h2 (Step.ret ⟨⟨[], 2⟩, [0, 1]⟩ 1 (by decide))
 
 /-! ### Integer arguments (the hypotheses of `select_spec`, `slice_spec`, `range_spec`, `in_spec`) -/
 
